@@ -319,7 +319,7 @@ func runRace(f lib.Flags, res *lib.Result, tbl *Table) {
 	rounds := f.N(1, 6)
 	for r := 0; r < rounds; r++ {
 		for _, sc := range scenarios {
-			jobs = append(jobs, job{sc, 4 + rng.Intn(13), f.N(1500, 3000) * sc.Scale, f.Seed*100 + int64(r)})
+			jobs = append(jobs, job{sc, 4 + rng.Intn(13), f.N(1000, 2500) * sc.Scale, f.Seed*100 + int64(r)})
 		}
 	}
 	results := make([]childResult, len(jobs))
@@ -332,7 +332,7 @@ func runRace(f lib.Flags, res *lib.Result, tbl *Table) {
 			defer wg.Done()
 			sem <- struct{}{}
 			defer func() { <-sem }()
-			results[i] = runChild(self, j.sc, j.seed, j.g, j.it, dir, 90*time.Second)
+			results[i] = runChild(self, j.sc, j.seed, j.g, j.it, dir, time.Duration(f.N(36, 90))*time.Second)
 		}(i, j)
 	}
 	wg.Wait()
@@ -462,8 +462,8 @@ func replay(f lib.Flags) int {
 			}
 			// data races are schedule dependent: the scenario is repeated (same program, same seed,
 			// then neighbouring seeds) until the same pair of sites is reported again
-			for attempt := 0; attempt < 8; attempt++ {
-				cr := runChild(self, sc, seed+int64(attempt), g, iters*(1+attempt/2), dir, 120*time.Second)
+			for attempt := 0; attempt < 6; attempt++ {
+				cr := runChild(self, sc, seed+int64(attempt), g, iters*(1+attempt/2), dir, 60*time.Second)
 				for _, r := range cr.Reports {
 					sig, what := raceSig(r, lib.RepoRoot())
 					if sig == rp.Signature {
@@ -472,7 +472,7 @@ func replay(f lib.Flags) int {
 					}
 				}
 			}
-			fmt.Println("replay: the detector no longer reports this pair (8 attempts)")
+			fmt.Println("replay: the detector no longer reports this pair (6 attempts)")
 			return 0
 		}
 		fmt.Println("replay: unknown scenario", name)
